@@ -22,7 +22,7 @@ VARIABLES tcfg,   \* configuration
 
 zvars == <<tcfg, tfd, tq, due, got, mustTcp, cseq>>
 
-ZInit == /\ tcfg = [igntc |-> 0] /\ tfd = <<>> /\ tq = <<>> /\ due = {} /\ got = {} /\ mustTcp = {} /\ cseq = <<>>
+ZInit == /\ tcfg = [igntc |-> 0, tcpfail |-> FALSE] /\ tfd = <<>> /\ tq = <<>> /\ due = {} /\ got = {} /\ mustTcp = {} /\ cseq = <<>>
 
 SameQ(rec, p) == /\ p.qt = rec.qt /\ p.qc = 1
                  /\ IF tcfg.dns0x20 = 1 /\ ~rec.tcp THEN p.name = rec.name ELSE p.lname = rec.lname
